@@ -100,11 +100,11 @@ theorem classAtom_sim (c : Cfg) (hcu : c.u = true) (fl : Flags) (hu : fl.unicode
     exact ⟨_, rfl, rfl⟩
 
 /-- What a class atom consumes is neutral inside a class. -/
-theorem classAtom_neutral (e k : Bool) (c : Cfg) (hcu : c.u = true) {x : Nat} {r r' : List Nat}
+theorem classAtom_neutral (F : Feat) (c : Cfg) (hcu : c.u = true) {x : Nat} {r r' : List Nat}
     {a : Option Nat} (hx : x ≠ 0x5D)
     (hp : ∀ y r', x = 0x5C → r = y :: r' → y ≠ 0x70 ∧ y ≠ 0x50)
     (h : classAtom c (x :: r) = .ok (a, r')) :
-    ∃ t, x :: r = t ++ r' ∧ NeutralM e k true t := by
+    ∃ t, x :: r = t ++ r' ∧ NeutralM F true t := by
   by_cases hbs : x = 0x5C
   · subst hbs
     rcases r with _ | ⟨y, r0⟩
@@ -115,20 +115,20 @@ theorem classAtom_neutral (e k : Bool) (c : Cfg) (hcu : c.u = true) {x : Nat} {r
       unfold classAtom at h
       simp only [hcu, hpp, if_true, Bool.false_eq_true, if_false] at h
       split at h
-      · cases h; exact ⟨[0x5C, y], rfl, neutralM_esc e k true y⟩
+      · cases h; exact ⟨[0x5C, y], rfl, neutralM_esc F true y⟩
       · split at h
-        · cases h; exact ⟨[0x5C, y], rfl, neutralM_esc e k true y⟩
+        · cases h; exact ⟨[0x5C, y], rfl, neutralM_esc F true y⟩
         · split at h
-          · cases h; exact ⟨[0x5C, y], rfl, neutralM_esc e k true y⟩
+          · cases h; exact ⟨[0x5C, y], rfl, neutralM_esc F true y⟩
           · split at h
             · rename_i v r'' hce
               cases h
-              obtain ⟨t, ht, hnt⟩ := charEscapeU_neutral e k true hce
-              exact ⟨[0x5C, y] ++ t, by rw [ht]; simp, neutralM_append (neutralM_esc e k true y) hnt⟩
+              obtain ⟨t, ht, hnt⟩ := charEscapeU_neutral F true hce
+              exact ⟨[0x5C, y] ++ t, by rw [ht]; simp, neutralM_append (neutralM_esc F true y) hnt⟩
             · cases h
   · rw [classAtom_plain c r hbs] at h
     cases h
-    exact ⟨[x], rfl, neutralM_in e k hbs hx⟩
+    exact ⟨[x], rfl, neutralM_in F hbs hx⟩
 
 /-! ## Unfolding equations of the two class loops -/
 
@@ -276,12 +276,12 @@ theorem classLoop_dash_close (c : Cfg) (n : Nat) (r2 : List Nat) :
 
 /-- The contents of a class up to and including the closing `]`: the crate's `bracketLoop` against
 the grammar's `classLoop` (UnicodeMode, no `\\p` / `\\P`). -/
-theorem classLoop_sim (e k : Bool) (c : Cfg) (hcu : c.u = true) (fl : Flags) (hu : fl.unicode = true)
+theorem classLoop_sim (F : Feat) (c : Cfg) (hcu : c.u = true) (fl : Flags) (hu : fl.unicode = true)
     (hn inv : Bool) : ∀ (n : Nat) (s : List Nat), s.length + 1 ≤ n → ∀ (f : Nat) (cps : CPS.IvList),
-    s.length + 1 ≤ f → AllChar s → fragGo e k true s = true →
+    s.length + 1 ≤ f → AllChar s → fragGo F true s = true →
     match classLoop c n s with
     | .ok r' => (∃ nd, bracketLoop fl hn inv f s cps = .ok (nd, r')) ∧
-        ∃ b, s = b ++ 0x5D :: r' ∧ NeutralM e k true b
+        ∃ b, s = b ++ 0x5D :: r' ∧ NeutralM F true b
     | .bad => IsSyn (bracketLoop fl hn inv f s cps)
     | .fuel => False := by
   intro n
@@ -295,7 +295,7 @@ theorem classLoop_sim (e k : Bool) (c : Cfg) (hcu : c.u = true) (fl : Flags) (hu
     by_cases hx : x = 0x5D
     · subst hx
       rw [cl_close]
-      exact ⟨bl_close fl hn inv f' cps r0, [], rfl, neutralM_nil e k true⟩
+      exact ⟨bl_close fl hn inv f' cps r0, [], rfl, neutralM_nil F true⟩
     simp only [List.length_cons] at hnn hf
     -- the leading escape is not `\p`
     have hp : ∀ y r', x = 0x5C → r0 = y :: r' → y ≠ 0x70 ∧ y ≠ 0x50 := by
@@ -315,11 +315,11 @@ theorem classLoop_sim (e k : Bool) (c : Cfg) (hcu : c.u = true) (fl : Flags) (hu
       obtain ⟨a, r⟩ := p
       rw [hca] at hA
       obtain ⟨a', ha', hrel⟩ := hA
-      obtain ⟨t, ht, hnt⟩ := classAtom_neutral e k c hcu hx hp hca
+      obtain ⟨t, ht, hnt⟩ := classAtom_neutral F c hcu hx hp hca
       have hlen := classAtom_len c _ _ _ hca
       simp only [List.length_cons] at hlen
       have hchr : AllChar r := by rw [ht] at hch; exact hch.append_right
-      have hfrr : fragGo e k true r = true := by rw [ht] at hfr; exact (hnt r).2.2 hfr
+      have hfrr : fragGo F true r = true := by rw [ht] at hfr; exact hnt.frag r hfr
       rw [s3 a r hca]
       by_cases hdash : ∃ r1, r = 0x2D :: r1
       · obtain ⟨r1, rfl⟩ := hdash
@@ -342,12 +342,12 @@ theorem classLoop_sim (e k : Bool) (c : Cfg) (hcu : c.u = true) (fl : Flags) (hu
             rw [hbl]
             obtain ⟨f'', rfl⟩ : ∃ f'', f' = f'' + 1 := ⟨f' - 1, by omega⟩
             refine ⟨bl_close fl hn inv f'' cps' r2, t ++ [0x2D], by rw [ht]; simp, ?_⟩
-            exact neutralM_append hnt (neutralM_in e k (by decide) (by decide))
+            exact neutralM_append hnt (neutralM_in F (by decide) (by decide))
           · -- a range
             obtain ⟨g1, g2, g3⟩ := clRest_range c n a (y := y) r2 hy
             have hch2 : AllChar (y :: r2) := hchr.tail
-            have hfr2 : fragGo e k true (y :: r2) = true := by
-              rwa [fragGo_in e k _ (by decide) (by decide)] at hfrr
+            have hfr2 : fragGo F true (y :: r2) = true := by
+              rwa [fragGo_in F _ (by decide) (by decide)] at hfrr
             have hp2 : ∀ z r', y = 0x5C → r2 = z :: r' → z ≠ 0x70 ∧ z ≠ 0x50 := by
               rintro z r' rfl rfl
               rw [fragGo_esc_in] at hfr2
@@ -364,7 +364,7 @@ theorem classLoop_sim (e k : Bool) (c : Cfg) (hcu : c.u = true) (fl : Flags) (hu
               obtain ⟨b, r3⟩ := p2
               rw [hcb] at hB
               obtain ⟨b', hb', hrelb⟩ := hB
-              obtain ⟨t2, ht2, hnt2⟩ := classAtom_neutral e k c hcu hy hp2 hcb
+              obtain ⟨t2, ht2, hnt2⟩ := classAtom_neutral F c hcu hy hp2 hcb
               have hlen2 := classAtom_len c _ _ _ hcb
               simp only [List.length_cons] at hlen2
               rw [g3 b r3 hcb]
@@ -395,7 +395,7 @@ theorem classLoop_sim (e k : Bool) (c : Cfg) (hcu : c.u = true) (fl : Flags) (hu
                     rw [if_neg (show ¬ va > vb by omega)]
                     simp only [if_true]
                     have hch3 : AllChar r3 := by rw [ht2] at hch2; exact hch2.append_right
-                    have hfr3 : fragGo e k true r3 = true := by rw [ht2] at hfr2; exact (hnt2 r3).2.2 hfr2
+                    have hfr3 : fragGo F true r3 = true := by rw [ht2] at hfr2; exact hnt2.frag r3 hfr2
                     have := ih r3 (by omega) f' (CPS.add cps { first := va, last := vb }) (by omega) hch3 hfr3
                     cases hcl : classLoop c n r3 with
                     | fuel => rw [hcl] at this; exact this.elim
@@ -405,7 +405,7 @@ theorem classLoop_sim (e k : Bool) (c : Cfg) (hcu : c.u = true) (fl : Flags) (hu
                       obtain ⟨h1, b3, hb3, hnb3⟩ := this
                       refine ⟨h1, t ++ ([0x2D] ++ (t2 ++ b3)), ?_, ?_⟩
                       · rw [ht, ht2, hb3]; simp
-                      · exact neutralM_append hnt (neutralM_append (neutralM_in e k (by decide) (by decide))
+                      · exact neutralM_append hnt (neutralM_append (neutralM_in F (by decide) (by decide))
                           (neutralM_append hnt2 hnb3))
                   · have hro : rangeOk c (some va) (some vb) = false := by simp [rangeOk, hle]
                     rw [hro]
@@ -466,35 +466,35 @@ theorem cAtom_class {cd : PState → Res (Node × PState)} {st : PState} {acc : 
   rfl
 
 /-- A character class, UnicodeMode without `v`: the crate's `[` arm against the grammar's. -/
-theorem class_sim (e k : Bool) (c : Cfg) (hcu : c.u = true) (hcv : c.v = false)
+theorem class_sim (F : Feat) (c : Cfg) (hcu : c.u = true) (hcv : c.v = false)
     {cd : PState → Res (Node × PState)} (st : PState) (hu : st.flags.unicode = true)
     (hv : st.flags.unicodeSets = false) (acc : List Node) {r0 : List Nat} (hin : st.input = 0x5B :: r0)
-    (hch : AllChar r0) (hfr : fragGo e k true r0 = true) (n : Nat) (hn : r0.length + 1 ≤ n) (est : ESG.St) :
+    (hch : AllChar r0) (hfr : fragGo F true r0 = true) (n : Nat) (hn : r0.length + 1 ≤ n) (est : ESG.St) :
     match atom c (n + 1) (0x5B :: r0) est with
     | .ok (r', est') => est' = est ∧
         (∃ nd, consumeAtomA cd st acc 0x5B = .ok ⟨acc ++ [nd], { st with input := r' }, acc.length, true⟩) ∧
-        ∃ p, 0x5B :: r0 = p ++ r' ∧ Neutral e k p
+        ∃ p, 0x5B :: r0 = p ++ r' ∧ Neutral F p
     | .bad => IsSyn (consumeAtomA cd st acc 0x5B)
     | .fuel => False := by
   obtain ⟨inv, hca⟩ := cAtom_class (cd := cd) (acc := acc) hv hin
   obtain ⟨a1, a2⟩ := atom_class c hcv n r0 est
   -- the contents after the optional `^`
-  have hs : ∃ q, r0 = q ++ stripCaret r0 ∧ NeutralM e k true q := by
+  have hs : ∃ q, r0 = q ++ stripCaret r0 ∧ NeutralM F true q := by
     unfold stripCaret
     rcases r0 with _ | ⟨y, r1⟩
-    · exact ⟨[], rfl, neutralM_nil e k true⟩
+    · exact ⟨[], rfl, neutralM_nil F true⟩
     · by_cases hy : y = 0x5E
-      · subst hy; exact ⟨[0x5E], rfl, neutralM_in e k (by decide) (by decide)⟩
-      · refine ⟨[], ?_, neutralM_nil e k true⟩
+      · subst hy; exact ⟨[0x5E], rfl, neutralM_in F (by decide) (by decide)⟩
+      · refine ⟨[], ?_, neutralM_nil F true⟩
         simp [hy]
   obtain ⟨q, hq, hnq⟩ := hs
   have hlen : (stripCaret r0).length ≤ r0.length := by
     have := congrArg List.length hq
     simp at this; omega
   have hch' : AllChar (stripCaret r0) := by rw [hq] at hch; exact hch.append_right
-  have hfr' : fragGo e k true (stripCaret r0) = true := by
-    have := hfr; rw [hq] at this; exact (hnq _).2.2 this
-  have hsim := classLoop_sim e k c hcu st.flags hu (!st.named.isEmpty) inv n (stripCaret r0) (by omega)
+  have hfr' : fragGo F true (stripCaret r0) = true := by
+    have := hfr; rw [hq] at this; exact hnq.frag _ this
+  have hsim := classLoop_sim F c hcu st.flags hu (!st.named.isEmpty) inv n (stripCaret r0) (by omega)
     ((stripCaret r0).length + 2) [] (by omega) hch' hfr'
   cases hcl : classLoop c n (stripCaret r0) with
   | fuel => rw [hcl] at hsim; exact hsim.elim
